@@ -56,7 +56,42 @@ def items(tier):
                 for ia, ib in itertools.product(range(len(m)), repeat=2):
                     out.append((kind, n, w, ia, ib, k))
                     k += 1
+    # more than ten elements (element names `arr_10`, `arr_11` sort before `arr_2`), fed per element
+    for n in (11, 12):
+        for kind in ("mod", "ext", "prim"):
+            for feed in ("range", "reversed", "both"):
+                out.append(("big", n, 1, kind, feed, k))
+                k += 1
     return out
+
+
+def design_big(desc):
+    _b, n, w, kind, feed, k = desc
+    exts, mods = {}, {}
+    decls = []
+    for nm, ww in [("s", 1), ("u", 12), ("x", 12)]:
+        decls.append(("sig", nm, ww))
+        en, ed = probe_ext(ww)
+        exts[en] = ed
+        decls.append(probe("p_" + nm, nm, ww, tag=4))
+    fwd = rng(sig("u"), 0, n)
+    rev = cat(*[idx(sig("x"), n - 1 - j) for j in range(n)])  # element j gets x[j]... written bit by bit, MSB-first
+    ea, eb = {"range": (fwd, sig("s")), "reversed": (sig("s"), rev), "both": (fwd, rev)}[feed]
+    if kind == "mod":
+        inner, en, ed = leaf_module("Inner", [("a", 1), ("b", 1)], tag=1)
+        mods["Inner"] = inner
+        exts[en] = ed
+        target, pa, pb = ("mod", "Inner"), "a", "b"
+    elif kind == "ext":
+        exts["L_a1_b1"] = ext_leaf([("a", 1), ("b", 1)])
+        target, pa, pb = ("ext", "L_a1_b1", {"k": 6}), "a", "b"
+    else:
+        target, pa, pb = ("prim", "R", {"r": 11}), "p", "n"
+    decls.append(("array", "arr", target, n, [(pa, ea), (pb, eb)]))
+    mods["Top"] = {"name": "Top", "style": ["proc", "class", "gen"][k % 3], "decls": decls}
+    if (k // 3) % 2 == 1:
+        mods["Top"]["array_form"] = "mult"
+    return "F5/big", {"bundles": {}, "exts": exts, "modules": mods, "top": "Top"}
 
 
 def design_bundle(desc):
@@ -89,6 +124,8 @@ def design_bundle(desc):
 def design(desc):
     if desc[0] == "bundle":
         return design_bundle(desc)
+    if desc[0] == "big":
+        return design_big(desc)
     cyc = None
     if desc[0] == "cycle":
         _c, n, w, kind, cyc, k = desc
